@@ -23,7 +23,7 @@ Rec == ndJsonDeserialize(IOEnv.TRACE)
 N == Len(Rec)
 
 CONSTANTS TraceDevs,    \* keys of recorded known findings whose deviation actions are enabled
-          CheckEngines  \* also demand that the compiled engines' recorded results agree (C03, C04)
+          CheckEngines  \* the compiled engines whose recorded results must agree: subset of {"jit", "cl"} (C03, C04)
 
 VARIABLES l,
           devs,      \* number of deviation steps taken so far (reported, never hidden)
@@ -127,8 +127,9 @@ SameMem(e) ==
 
 \* C03 / C04 (direction A): when the specification judges the run defined, a compiled engine that
 \* was run on the same program and input returned the same value and left the same bytes
-EngineAgrees(x) ==
+EngineAgrees(x, isJit) ==
   x.k = "skipped" \/ ~defd \/
+  (isJit /\ HasLocalCall(Prog)) \/   \* recorded finding jit_r10: JIT frames alias (decided by the calls family, C07/C03)
   rundevs > 0 \/            \* the interpreter took a recorded deviation step in this run (reported as such)
   (/\ x.k = "ok" /\ x.val = status.val /\ x.pkt = mem[R_PKT]
    /\ (env.c.vm = "mbuff" => x.mbuf = mem[R_MBUF]))
@@ -137,7 +138,8 @@ TraceEnd ==
   /\ IsEv(l, "end")
   /\ LET e == Ev(l) IN
      \/ /\ e.k = "ok" /\ status.k = "ok" /\ e.val = status.val /\ SameMem(e)
-        /\ (CheckEngines => (EngineAgrees(e.jit) /\ EngineAgrees(e.cl)))
+        /\ ("jit" \in CheckEngines => EngineAgrees(e.jit, TRUE))
+        /\ ("cl" \in CheckEngines => EngineAgrees(e.cl, FALSE))
      \/ /\ e.k = "err" /\ status.k = "err" /\ SameMem(e)
         /\ (e.class = "budget") = (status.class = "budget")
      \* the hook refused the next instruction: the machine is at its budget
